@@ -1,4 +1,4 @@
-import Rtsp.Proofs.UrlFidelity
+import Rtsp.Proofs.UrlFlow
 /-
 Property C20 — URL fidelity: path, query and track resolution agree between client and server.
 
@@ -229,6 +229,131 @@ theorem no_credentials_on_wire (u : Url) (hs : IsScheme u.scheme)
     · simp [hq] at ha
     · simp [hq] at ha
 
+/-! ## whole sessions (`Model/UrlFlow.lean`) -/
+
+/-- **End to end, playing.**  For every in-scope URL, every stream size `n` and every order in which the
+client sets up (distinct) medias, with or without authentication and PAUSE: no step fails; every handler
+invocation (DESCRIBE, every SETUP, PLAY, PAUSE) sees exactly the original path and query; the medias of the
+session are at every moment the ones the SETUPs were issued for, in that order. -/
+theorem playFlow_fidelity {u : Url} (h : InScope u) {n : Nat} {order : List Nat} (hne : order ≠ [])
+    (hnd : order.Nodup) (hlt : ∀ i ∈ order, i < n ∧ i ≤ maxTrackID) (auth pause : Bool) :
+    (playFlow u.toStr n order auth pause).failed = none ∧
+    ∀ e ∈ (playFlow u.toStr n order auth pause).events, Ev.Good u order e := by
+  have hnc := h.withoutCredentials
+  have hb : WF (extend u [47]) := h.wf.extend slash_plain (by simp)
+  have hgb : getPathAndQuery (extend u [47]).withoutCredentials false = (u.path, u.rawQuery) := by
+    rw [extend_withoutCredentials]; exact gpq_base hnc
+  unfold playFlow
+  simp only [parse_toStr h.wf, serverURL_target h.wf, gpq_self hnc false]
+  obtain ⟨h1, h2, es, h3, h4⟩ := authRound_spec ((({} : Trace).line "OPTIONS" (requestTarget (some u))).line "DESCRIBE" (requestTarget (some u)))
+    "DESCRIBE" (requestTarget (some u)) u.withoutCredentials auth false
+    (fun a => Ev.describe u.withoutCredentials.path u.withoutCredentials.rawQuery a) authURIOK_target
+  rcases hA : authRound ((({} : Trace).line "OPTIONS" (requestTarget (some u))).line "DESCRIBE" (requestTarget (some u)))
+    "DESCRIBE" (requestTarget (some u)) u.withoutCredentials auth false
+    (fun a => Ev.describe u.withoutCredentials.path u.withoutCredentials.rawQuery a) with ⟨t0, ok, sender⟩
+  rw [hA] at h1 h2 h3
+  simp only at h1 h2 h3
+  subst h1
+  simp only [Bool.not_true, Bool.false_eq_true, if_false, findBaseURL_contentBase h.wf]
+  -- the SETUPs
+  have hinv0 : PInv u order [] ({ t := t0, sender := sender } : SetupState) := by
+    refine ⟨by rw [h2]; rfl, rfl, rfl, ?_⟩
+    intro e he
+    rw [h3] at he
+    simp only [Trace.line_events, List.nil_append] at he
+    obtain ⟨b, rfl⟩ := h4 e he
+    exact ⟨rfl, List.nil_prefix, by simp [Ev.isSession]⟩
+  have hinv := playSetups_inv h (n := n) (auth := auth) order [] _ (by simp) hnd hlt hinv0
+  generalize playSetups (extend u [47]) n auth order { t := t0, sender := sender } = s at hinv
+  have hsp : s.path = some u.path := by rw [hinv.path, if_neg hne]
+  have hplay : ∀ e ∈ s.t.events ++ [Ev.play u.path u.rawQuery s.medias], Ev.Good u order e := by
+    intro e he
+    rcases List.mem_append.1 he with he | he
+    · exact hinv.good e he
+    · simp at he; subst he
+      exact ⟨rfl, by simp [Ev.medias, hinv.medias], by intro _; simp [Ev.medias, hinv.medias]⟩
+  rw [sessionRequest_ok s.t "PLAY" hb hgb s.path true (fun _ => hsp) _ hinv.ok]
+  cases pause with
+  | false =>
+    simp only [Bool.false_eq_true, if_false, Trace.ev_failed, Trace.line_failed, hinv.ok, Option.isSome_none]
+    exact ⟨trivial, by simpa using hplay⟩
+  | true =>
+    simp only [if_true]
+    rw [sessionRequest_ok _ "PAUSE" hb hgb s.path false (by simp) _ (by simp [hinv.ok])]
+    rw [sessionRequest_ok _ "PLAY" hb hgb s.path true (fun _ => hsp) _ (by simp [hinv.ok])]
+    simp only [Trace.ev_failed, Trace.line_failed, hinv.ok, Option.isSome_none, Bool.false_eq_true, if_false]
+    refine ⟨trivial, ?_⟩
+    intro e he
+    simp only [Trace.line_events, Trace.ev_events, List.append_assoc, List.mem_append, List.mem_cons,
+      List.mem_singleton, List.not_mem_nil, or_false] at he
+    rcases he with he | he | he | he
+    · exact hinv.good e he
+    · subst he; exact ⟨rfl, by simp [Ev.medias, hinv.medias], by intro _; simp [Ev.medias, hinv.medias]⟩
+    · subst he; exact ⟨rfl, by simp [Ev.medias, hinv.medias], by intro _; simp [Ev.medias, hinv.medias]⟩
+    · subst he; exact ⟨rfl, by simp [Ev.medias, hinv.medias], by intro _; simp [Ev.medias, hinv.medias]⟩
+
+
+/-- **End to end, recording.**  For every in-scope URL without a bare `?`, every number `n` of announced
+medias and every order in which the client sets all of them up: no step fails; ANNOUNCE, every SETUP,
+RECORD and PAUSE handlers see exactly the original path and query; each SETUP configures the media it was
+issued for. -/
+theorem recordFlow_fidelity {u : Url} (h : InScope u) (hq : u.forceQuery = false) {n : Nat} {order : List Nat}
+    (hlen : order.length = n) (hnd : order.Nodup) (hlt : ∀ i ∈ order, i < n) (auth pause : Bool) :
+    (recordFlow u.toStr n order auth pause).failed = none ∧
+    ∀ e ∈ (recordFlow u.toStr n order auth pause).events, Ev.Good u order e := by
+  have hnc := h.withoutCredentials
+  have hgu : getPathAndQuery u.withoutCredentials false = (u.path, u.rawQuery) := gpq_self hnc false
+  unfold recordFlow
+  simp only [parse_toStr h.wf, serverURL_target h.wf, gpq_self hnc true]
+  obtain ⟨h1, h2, es, h3, h4⟩ := authRound_spec ((({} : Trace).line "OPTIONS" (requestTarget (some u))).line "ANNOUNCE" (requestTarget (some u)))
+    "ANNOUNCE" (requestTarget (some u)) u.withoutCredentials auth false
+    (fun a => Ev.announce u.withoutCredentials.path u.withoutCredentials.rawQuery a) authURIOK_target
+  rcases hA : authRound ((({} : Trace).line "OPTIONS" (requestTarget (some u))).line "ANNOUNCE" (requestTarget (some u)))
+    "ANNOUNCE" (requestTarget (some u)) u.withoutCredentials auth false
+    (fun a => Ev.announce u.withoutCredentials.path u.withoutCredentials.rawQuery a) with ⟨t0, ok, sender⟩
+  rw [hA] at h1 h2 h3
+  simp only at h1 h2 h3
+  subst h1
+  simp only [Bool.not_true, Bool.false_eq_true, if_false]
+  have hinv0 : RInv u order [] ({ t := t0, sender := sender } : SetupState) := by
+    refine ⟨by rw [h2]; rfl, rfl, ?_⟩
+    intro e he
+    rw [h3] at he
+    simp only [Trace.line_events, List.nil_append] at he
+    obtain ⟨b, rfl⟩ := h4 e he
+    exact ⟨rfl, List.nil_prefix, by simp [Ev.isSession]⟩
+  have hinv := recordSetups_inv h hq (n := n) (auth := auth) order [] _ (by simp) hnd hlt hinv0
+  have e1 : u.withoutCredentials.path = u.path := rfl
+  have e2 : u.withoutCredentials.rawQuery = u.rawQuery := rfl
+  simp only [e1, e2]
+  generalize recordSetups u ((List.range n).map control) u.path u.rawQuery auth order { t := t0, sender := sender } = s at hinv
+  have hlen' : (s.medias.length != n) = false := by rw [hinv.medias, hlen]; simp
+  simp only [hinv.ok, Option.isSome_none, Bool.not_false, hlen', Bool.and_false, Bool.false_eq_true, if_false]
+  rw [sessionRequest_ok s.t "RECORD" h.wf hgu (some u.path) true (fun _ => rfl) _ hinv.ok]
+  cases pause with
+  | false =>
+    simp only [Bool.false_eq_true, if_false, Trace.ev_failed, Trace.line_failed, hinv.ok, Option.isSome_none]
+    refine ⟨trivial, ?_⟩
+    intro e he
+    simp only [Trace.line_events, Trace.ev_events, List.mem_append, List.mem_cons, List.not_mem_nil, or_false] at he
+    rcases he with he | he
+    · exact hinv.good e he
+    · subst he; exact ⟨rfl, by simp [Ev.medias, hinv.medias], by intro _; simp [Ev.medias, hinv.medias]⟩
+  | true =>
+    simp only [if_true]
+    rw [sessionRequest_ok _ "PAUSE" h.wf hgu (some u.path) false (by simp) _ (by simp [hinv.ok])]
+    rw [sessionRequest_ok _ "RECORD" h.wf hgu (some u.path) true (fun _ => rfl) _ (by simp [hinv.ok])]
+    simp only [Trace.ev_failed, Trace.line_failed, hinv.ok, Option.isSome_none, Bool.false_eq_true, if_false]
+    refine ⟨trivial, ?_⟩
+    intro e he
+    simp only [Trace.line_events, Trace.ev_events, List.append_assoc, List.mem_append, List.mem_cons,
+      List.not_mem_nil, or_false] at he
+    rcases he with he | he | he | he
+    · exact hinv.good e he
+    · subst he; exact ⟨rfl, by simp [Ev.medias, hinv.medias], by intro _; simp [Ev.medias, hinv.medias]⟩
+    · subst he; exact ⟨rfl, by simp [Ev.medias, hinv.medias], by intro _; simp [Ev.medias, hinv.medias]⟩
+    · subst he; exact ⟨rfl, by simp [Ev.medias, hinv.medias], by intro _; simp [Ev.medias, hinv.medias]⟩
+
 /-! ## non-vacuity: concrete URL values inside the property's quantifier
 
 (`decide` here only evaluates the hypotheses on sample values — tests of satisfiability, not theorems.) -/
@@ -260,6 +385,10 @@ theorem ex2_inScope : InScope ex2 :=
             path := ⟨by decide, by decide, by decide, by decide⟩,
             query := by decide, fq := by decide },
     pathNoSlash := by decide, queryNoSlash := by decide }
+
+/-- orders of SETUPs as the flow theorems want them (distinct medias, each below the media count) -/
+example : ([2, 0, 1] : List Nat) ≠ [] ∧ ([2, 0, 1] : List Nat).Nodup ∧ ([2, 0, 1] : List Nat).length = 3 ∧
+    ∀ i ∈ ([2, 0, 1] : List Nat), i < 3 ∧ i ≤ maxTrackID := by decide
 
 /-- the hypotheses of the theorems above are satisfiable, with and without user-info / query / escapes -/
 example : ∃ u, InScope u ∧ u.user.isSome = true ∧ hasQ u = true ∧ u.forceQuery = false := ⟨ex1, ex1_inScope, rfl, by decide, rfl⟩
